@@ -16,7 +16,7 @@ from cnfgen.clitools.cnfshuffle import cli as cnfshuffle_cli
 from cnfgen.clitools.cmdline import CLIError
 import cnfgen.clitools.msg as climsg
 
-from detsim.core import Violation, call, exc_signature
+from detsim.core import HarnessError, Violation, call, exc_signature
 from detsim.refmodels import cnfref
 from detsim.runner import REPO
 from detsim.simio import SimFS, SimStream, open_router, text_reader
@@ -140,12 +140,49 @@ def generate(rng, config):
             if config == "cnfshuffle" else rng.choice([None, None, 5, 0])
         case["stdin"] = rng.random() < 0.4
         case["tagged"] = False
+        if rng.random() < 0.4:
+            # the input file is somebody else's: any legal DIMACS layout
+            case["layout"] = {"wrap": rng.choice([0, 0, 1, 2, 3]),
+                              "join": rng.random() < 0.4,
+                              "comments": rng.random() < 0.4,
+                              "indent": rng.random() < 0.3}
     return case
 
 
-def _dimacs(n, clauses):
-    return "p cnf %d %d\n" % (n, len(clauses)) + "".join(
-        " ".join(str(l) for l in c) + " 0\n" for c in clauses)
+def _dimacs(n, clauses, layout=None):
+    if not layout:
+        return "p cnf %d %d\n" % (n, len(clauses)) + "".join(
+            " ".join(str(l) for l in c) + " 0\n" for c in clauses)
+    # same formula, another legal layout: clauses end at 0, not at the end
+    # of the line
+    toks = []
+    for c in clauses:
+        toks.extend(str(l) for l in c)
+        toks.append("0")
+    lines, cur = [], []
+    for t in toks:
+        cur.append(t)
+        full = len(cur) >= layout["wrap"] if layout["wrap"] else t == "0"
+        if full and not (layout["join"] and t == "0" and len(lines) % 2):
+            lines.append(cur)
+            cur = []
+    if cur:
+        lines.append(cur)
+    out = ["c wrapped by another tool\n" if layout["comments"] else "",
+           "p cnf %d %d\n" % (n, len(clauses))]
+    for i, ln in enumerate(lines):
+        if layout["comments"] and i % 3 == 1:
+            out.append("c 1 2 0 not a clause\n\n")
+        out.append(("  " if layout["indent"] else "") +
+                   ("\t" if layout["indent"] and i % 2 else " ").join(ln) +
+                   "\n")
+    text = "".join(out)
+    back = cnfref.read_dimacs(text)
+    if not isinstance(back, cnfref.Valid) or back.n != n or \
+            [list(c) for c in back.clauses] != [list(c) for c in clauses]:
+        raise HarnessError("C09 layout generator wrote %r for %r" %
+                           (text, clauses))
+    return text
 
 
 def _apply(n, clauses, flips, P, T):
@@ -214,7 +251,9 @@ def execute(case, ctx):
             res = call(Shuffle, F, conv(args["flips"]), conv(args["vars"]),
                        conv(args["clauses"]))
         else:
-            text = _dimacs(N, clauses)
+            text = _dimacs(N, clauses, case.get("layout"))
+            if case.get("layout"):
+                ctx.fault("input_layout_not_one_clause_per_line")
             flags = []
             if args["flips"]["mode"] == "fixed":
                 flags.append("-p")
